@@ -103,7 +103,37 @@ def run(pid, cfg, results, seed):
             mine.append((i, mm))
     with cf.ThreadPoolExecutor(max_workers=8) as ex:
         stab = {u: ex.submit(_stability, u, seed) for u in units}
+        # vacuity, second line of defence (see driver.sat_unit / driver.probe_unit): every ASSUMED contract must be
+        # satisfiable on its own, and every statement of every contracted function must be reachable for the verifier
+        sat = {u: ex.submit(driver.sat_unit, u, "_%s_%d" % (pid.lower(), os.getpid())) for u in units}
+        reach = {u: ex.submit(driver.probe_unit, u, "_%s_%d" % (pid.lower(), os.getpid())) for u in units}
         mres = [ex.submit(_mutant, i, m, pid) for (i, m) in mine]
+        info["assumed_contract_probes"], info["reachability_probes"] = {}, {}
+        for u, fu in sat.items():
+            r = fu.result()
+            info["assumed_contract_probes"][u.upper()] = {"ran": r["ran"], "probes": r["probes"], "skipped": r["skipped"],
+                                                          "unsatisfiable": r["unsatisfiable"], "note": r["note"], "cmd": r.get("cmd")}
+            if not r["ran"]:
+                undecided.append("%s: assumed-contract probes did not run: %s" % (u.upper(), r["note"]))
+            for x in r["unsatisfiable"]:
+                undecided.append("%s: the ASSUMED contract of %s (%s) is unsatisfiable: everything after a call of it verifies vacuously" % (
+                    u.upper(), x["fn"], x["in"]))
+        for u, fu in reach.items():
+            r = fu.result()
+            bad = [x for x in r["unreachable"] if not x.get("allowed")]
+            info["reachability_probes"][u.upper()] = {"ran": r["ran"], "probes": r["probes"], "unreachable": r["unreachable"],
+                                                      "functions_skipped_for_rlimit": r["skipped_functions"], "note": r["note"], "cmd": r.get("cmd")}
+            if not r["ran"]:
+                undecided.append("%s: reachability probes did not run: %s" % (u.upper(), r["note"]))
+            for x in bad:
+                undecided.append("%s: the verifier considers %s:%d (after `%s`, in %s) unreachable: contradictory assumptions in front of it or dead code not listed in contracts/dead_points.json" % (
+                    u.upper(), x["file"], x["line"], x["text"], x["fn"]))
+        for tmp in os.listdir(driver.BUILD):
+            if tmp.endswith("_%s_%d_sat.rs" % (pid.lower(), os.getpid())) or tmp.endswith("_%s_%d_probe.rs" % (pid.lower(), os.getpid())):
+                try:
+                    os.remove(os.path.join(driver.BUILD, tmp))
+                except OSError:
+                    pass
         for u, fu in stab.items():
             runs = fu.result()
             info["stability"][u.upper()] = runs
